@@ -62,7 +62,7 @@ let size_bucket k =
   else if k <= 20 then "11-20" else if k <= 50 then "21-50" else "51+"
 
 (* cost bound for the extracted oracle (list-of-Z arithmetic): interactions x (models + sample) x t x n *)
-let ext_budget = 4_000_000
+let ext_budget = 40_000_000
 
 let rec binom n k = if k < 0 || k > n then 0 else if k = 0 then 1 else binom (n - 1) (k - 1) * n / k
 
@@ -156,7 +156,7 @@ let check_twise (b : block) : verdict list =
               | [] -> ());
              (* (a) extracted verified checker on the dumped circuit's truth table *)
              let cost = binom n tt * (1 lsl tt) * (nmodels + k) * tt * n in
-             if n <= 10 && cost <= ext_budget then begin
+             if n <= 12 && cost <= ext_budget then begin
                bump "c09_ext_oracle_runs";
                let s_z = List.map Conv.zlist_of_ints cfgs in
                let ok_ext = Model.twise_ok_models (Lazy.force circ_models_z) nn (Conv.nat_of_int t) s_z in
